@@ -19,8 +19,23 @@ package webrtc
 // by converting media sections in place and/or inserting new sections at random positions, each with its own
 // transport protocol token / sctp-port / max-message-size / port. With a two-round case the repeated section may
 // only appear in the renegotiation. A share of the answerers also holds a locally created data channel.
+//
+// "Whenever CreateAnswer succeeds" also ranges over HOW the answerer was configured: several SettingEngine /
+// Configuration / AnswerOptions settings select a different code path for how one section (or the session part) of the
+// answer is produced, most of them only when the offer carries the attribute the setting reacts to. 60% of the cases
+// therefore draw a random non-default answerer (c07GenKnobs: SCTP SNAP, SCTP zero checksum / receive buffer / max
+// message size, media-level fingerprints, ICE lite, answering DTLS role, ignore-rid-pause, ICE renomination, bundle
+// policy, RTCP mux policy, AlwaysNegotiateDataChannels, trickle advertisement) and 65% of the offers are decorated with
+// a random subset of the activating attributes (c07Activate: a=sctp-init on application sections, a=ice-lite,
+// a=setup:active/passive/absent, a=extmap-allow-mixed, a=ice-options, a=rid/a=simulcast with paused rids); settings
+// and attributes are drawn independently, so on/on, on/off and off/on all occur, for sections at every position.
+//
+// When the counts agree but the answer's sections are a permutation of the offer's (same mids, other order), the
+// oracle names the displaced section (answer-moves-section:<kind>) instead of the per-position symptoms.
 
 import (
+	"encoding/base64"
+	"encoding/binary"
 	"fmt"
 	"regexp"
 	"strings"
@@ -100,8 +115,218 @@ type c07Case struct {
 	Engine       []c07Codec
 	Locals       []c07Local
 	DisableMulti bool
-	LocalDC      bool   // the answerer created a data channel before the offer arrived
-	AppClass     string // "" or how application sections were repeated (convert/insert counts), label only
+	LocalDC      bool     // the answerer created a data channel before the offer arrived
+	AppClass     string   // "" or how application sections were repeated (convert/insert counts), label only
+	Knobs        c07Knobs // non-default answerer settings
+	Act          []string // labels of the activating attributes the offer was decorated with
+}
+
+// ---------------------------------------------------------------- answerer settings + the offer attributes they react to
+
+// c07Knobs is the non-default part of the answerer's SettingEngine / Configuration / AnswerOptions. Only settings that
+// are read on the way from the applied offer to the answer text (CreateAnswer, generateMatchedSDP, populateSDP and what
+// they call) are listed. The zero value is the default answerer.
+type c07Knobs struct {
+	Snap           bool   // SettingEngine.EnableSctpSnap            <-> a=sctp-init in the offered application section
+	ZeroChecksum   bool   // SettingEngine.EnableSCTPZeroChecksum    (content of the local sctp-init)
+	RecvBuf        uint32 // SettingEngine.SetSCTPMaxReceiveBufferSize (content of the local sctp-init)
+	SCTPMaxMsg     uint32 // SettingEngine.SetSCTPMaxMessageSize     <-> application section / a=max-message-size
+	MediaFP        bool   // SettingEngine.SetSDPMediaLevelFingerprints
+	Lite           bool   // SettingEngine.SetLite                   <-> a=ice-lite
+	AnswerRole     string // SettingEngine.SetAnsweringDTLSRole: "" | client | server <-> a=setup
+	IgnoreRidPause bool   // SettingEngine.SetIgnoreRidPauseForRecv  <-> a=simulcast with ~rid
+	Renomination   bool   // SettingEngine.SetICERenomination        <-> a=ice-options:renomination
+	Bundle         string // Configuration.BundlePolicy: "" | balanced | max-compat | max-bundle
+	RTCPMux        string // Configuration.RTCPMuxPolicy: "" | negotiate | require
+	AlwaysDC       bool   // Configuration.AlwaysNegotiateDataChannels
+	Trickle        bool   // AnswerOptions.ICETricklingSupported
+}
+
+// on lists the settings that differ from the default (labels for evidence / case identity).
+func (k c07Knobs) on() []string {
+	var out []string
+	add := func(c bool, s string) {
+		if c {
+			out = append(out, s)
+		}
+	}
+	add(k.Snap, "sctp-snap")
+	add(k.ZeroChecksum, "sctp-zero-checksum")
+	add(k.RecvBuf != 0, fmt.Sprintf("sctp-recv-buffer=%d", k.RecvBuf))
+	add(k.SCTPMaxMsg != 0, fmt.Sprintf("sctp-max-message-size=%d", k.SCTPMaxMsg))
+	add(k.MediaFP, "media-level-fingerprints")
+	add(k.Lite, "ice-lite")
+	add(k.AnswerRole != "", "answering-dtls-role="+k.AnswerRole)
+	add(k.IgnoreRidPause, "ignore-rid-pause")
+	add(k.Renomination, "ice-renomination")
+	add(k.Bundle != "", "bundle-policy="+k.Bundle)
+	add(k.RTCPMux != "", "rtcp-mux-policy="+k.RTCPMux)
+	add(k.AlwaysDC, "always-negotiate-datachannels")
+	add(k.Trickle, "answer-option-trickle")
+
+	return out
+}
+
+func c07GenKnobs(r *kit.Rand) c07Knobs {
+	var k c07Knobs
+	if !r.Chance(0.6) {
+		return k // the default answerer stays the largest single class
+	}
+	const p = 0.3
+	k.Snap = r.Chance(0.4)
+	k.ZeroChecksum = r.Chance(p)
+	if r.Chance(p) {
+		k.RecvBuf = kit.Pick(r, []uint32{64 << 10, 1 << 20, 4 << 20})
+	}
+	if r.Chance(p) {
+		k.SCTPMaxMsg = kit.Pick(r, []uint32{1200, 16384, 65536, 262144, 1 << 30})
+	}
+	k.MediaFP = r.Chance(p)
+	k.Lite = r.Chance(p)
+	if r.Chance(p) {
+		k.AnswerRole = kit.Pick(r, []string{"client", "server"})
+	}
+	k.IgnoreRidPause = r.Chance(p)
+	k.Renomination = r.Chance(0.15)
+	if r.Chance(p) {
+		k.Bundle = kit.Pick(r, []string{"balanced", "max-compat", "max-bundle"})
+	}
+	if r.Chance(p) {
+		k.RTCPMux = kit.Pick(r, []string{"negotiate", "require"})
+	}
+	k.AlwaysDC = r.Chance(0.2)
+	k.Trickle = r.Chance(p)
+
+	return k
+}
+
+// c07SctpInitToken builds the value of an a=sctp-init attribute: a base64 SCTP INIT chunk (RFC 9260 S3.3.2) with
+// randomised fields and optional parameters, written out by hand (no pion/sctp code involved).
+func c07SctpInitToken(r *kit.Rand) string {
+	var params []byte
+	param := func(typ uint16, val ...byte) {
+		p := binary.BigEndian.AppendUint16(nil, typ)
+		p = binary.BigEndian.AppendUint16(p, uint16(4+len(val)))
+		p = append(p, val...)
+		for len(p)%4 != 0 {
+			p = append(p, 0)
+		}
+		params = append(params, p...)
+	}
+	if r.Chance(0.8) { // Supported Extensions (RFC 5061 S4.2.7): RE-CONFIG, FORWARD-TSN, optionally I-DATA
+		exts := []byte{130, 192}
+		if r.Chance(0.3) {
+			exts = append(exts, 64)
+		}
+		param(0x8008, exts...)
+	}
+	if r.Chance(0.6) { // Forward-TSN-Supported (RFC 3758 S3.1)
+		param(0xC000)
+	}
+	if r.Chance(0.3) { // Zero Checksum Acceptable (RFC 9653 S4), error detection method: DTLS
+		param(0x8001, 0, 0, 0, 1)
+	}
+	body := binary.BigEndian.AppendUint32(nil, uint32(r.Range(1, 1<<31-1)))                              // initiate tag, non-zero
+	body = binary.BigEndian.AppendUint32(body, kit.Pick(r, []uint32{1500, 128 << 10, 1 << 20, 4 << 20})) // a_rwnd
+	body = binary.BigEndian.AppendUint16(body, kit.Pick(r, []uint16{65535, 65535, 1024, 16}))            // outbound streams
+	body = binary.BigEndian.AppendUint16(body, kit.Pick(r, []uint16{65535, 65535, 2048, 16}))            // inbound streams
+	body = binary.BigEndian.AppendUint32(body, uint32(r.Range(0, 1<<31-1)))                              // initial TSN
+	body = append(body, params...)
+	chunk := []byte{1, 0}
+	chunk = binary.BigEndian.AppendUint16(chunk, uint16(4+len(body)))
+	chunk = append(chunk, body...)
+
+	return base64.StdEncoding.EncodeToString(chunk)
+}
+
+// c07Activate decorates the offer with a random subset of the attributes an answerer setting reacts to. It never
+// changes the number, kind, mid or order of the sections. The probability of an attribute is higher when the setting
+// it activates is on, but every attribute also occurs against the default answerer and every setting also meets
+// offers without its attribute.
+func c07Activate(r *kit.Rand, g *genSDP, k c07Knobs) []string {
+	if !r.Chance(0.65) {
+		return nil
+	}
+	var act []string
+	prob := func(on bool, hi, lo float64) float64 {
+		if on {
+			return hi
+		}
+
+		return lo
+	}
+	// a=sctp-init: what a SNAP capable offerer adds to its application section(s)
+	pInit := prob(k.Snap, 0.8, 0.3)
+	shared := c07SctpInitToken(r)
+	for _, m := range g.Media {
+		if m.Kind != "application" || !r.Chance(pInit) {
+			continue
+		}
+		tok := shared
+		if r.Chance(0.2) {
+			tok = c07SctpInitToken(r)
+		}
+		m.Extra = append(append([]string{}, m.Extra...), "a=sctp-init:"+tok)
+		act = append(act, "sctp-init")
+	}
+	if r.Chance(prob(k.Lite, 0.5, 0.2)) {
+		g.ICELite = true
+		act = append(act, "ice-lite")
+	}
+	// a=setup: one value for the whole (bundled) offer
+	if r.Chance(prob(k.AnswerRole != "", 0.5, 0.25)) {
+		setup := kit.Pick(r, []string{"active", "passive", "absent"})
+		for _, m := range g.Media {
+			if setup == "absent" {
+				m.NoSetup = true
+			} else {
+				m.Setup = setup
+			}
+		}
+		act = append(act, "setup="+setup)
+	}
+	if r.Chance(0.3) {
+		g.Extra = append(append([]string{}, g.Extra...), "a=extmap-allow-mixed")
+		act = append(act, "extmap-allow-mixed")
+	}
+	if r.Chance(prob(k.Renomination || k.Trickle, 0.5, 0.25)) {
+		opt := kit.Pick(r, []string{"trickle", "renomination", "trickle renomination", "ice2"})
+		g.Extra = append(append([]string{}, g.Extra...), "a=ice-options:"+opt)
+		act = append(act, "ice-options="+opt)
+	}
+	// simulcast: rids on sending audio/video sections, some of them paused
+	pRid := prob(k.IgnoreRidPause, 0.45, 0.15)
+	for _, m := range g.Media {
+		if (m.Kind != "audio" && m.Kind != "video") || m.Msid == "" || !r.Chance(pRid) {
+			continue
+		}
+		names := []string{"q", "h", "f", "lo", "mid", "hi", "0", "1", "2"}
+		kit.Shuffle(r, names)
+		names = names[:r.Range(1, 3)]
+		extra := append([]string{}, m.Extra...)
+		var list []string
+		paused := false
+		for _, n := range names {
+			extra = append(extra, fmt.Sprintf("a=rid:%s send", n))
+			if r.Chance(0.35) {
+				n = "~" + n
+				paused = true
+			}
+			list = append(list, n)
+		}
+		extra = append(extra, "a=simulcast:send "+strings.Join(list, ";"))
+		m.Extra = extra
+		if r.Chance(0.5) { // browsers do not announce SSRCs for simulcast layers
+			m.SSRCs, m.FID = nil, false
+		}
+		if paused {
+			act = append(act, "simulcast-rids-paused")
+		} else {
+			act = append(act, "simulcast-rids")
+		}
+	}
+
+	return act
 }
 
 // c07AppSection returns a data-channel section with randomised (legal) parameters.
@@ -275,6 +500,8 @@ func c07Gen(r *kit.Rand) *c07Case {
 	}
 	c.DisableMulti = r.Chance(0.25)
 	c.LocalDC = r.Chance(0.2)
+	c.Knobs = c07GenKnobs(r)
+	c.Act = c07Activate(r, c.Offer, c.Knobs)
 
 	return c
 }
@@ -539,6 +766,73 @@ func c07Align(off, ans *kit.SDPDesc) (ansTo []int, missing []int) {
 	return ansTo, missing
 }
 
+// c07ByMid pairs the sections by mid alone. ok when every section of both descriptions carries a mid, the mids are
+// pairwise distinct within each description and every answer mid is an offer mid; pos[i] is then the answer position of
+// offer section i, or -1 when the answer has no section with that mid.
+func c07ByMid(off, ans *kit.SDPDesc) (pos []int, ok bool) {
+	at := map[string]int{}
+	for j, a := range ans.Media {
+		mid, has := a.Mid()
+		if _, dup := at[mid]; !has || dup {
+			return nil, false
+		}
+		at[mid] = j
+	}
+	pos = make([]int, len(off.Media))
+	seen := map[string]bool{}
+	matched := 0
+	for i, o := range off.Media {
+		mid, has := o.Mid()
+		if !has || seen[mid] {
+			return nil, false
+		}
+		seen[mid] = true
+		pos[i] = -1
+		if j, found := at[mid]; found {
+			pos[i] = j
+			matched++
+		}
+	}
+
+	return pos, matched == len(ans.Media)
+}
+
+// c07Displaced returns the offer sections (indices with pos >= 0) that lie outside a longest subsequence whose answer
+// positions increase, i.e. a smallest set of sections that has to be taken out for the rest to be "in the same order".
+// Among equally long subsequences the one made of the latest sections is kept.
+func c07Displaced(pos []int) []int {
+	n := len(pos)
+	best := make([]int, n) // length of the longest increasing run ending at i
+	prev := make([]int, n)
+	end := -1
+	for i := 0; i < n; i++ {
+		if pos[i] < 0 {
+			continue
+		}
+		best[i], prev[i] = 1, -1
+		for h := 0; h < i; h++ {
+			if pos[h] >= 0 && pos[h] < pos[i] && best[h]+1 >= best[i] {
+				best[i], prev[i] = best[h]+1, h
+			}
+		}
+		if end < 0 || best[i] >= best[end] {
+			end = i
+		}
+	}
+	keep := map[int]bool{}
+	for i := end; i >= 0; i = prev[i] {
+		keep[i] = true
+	}
+	var out []int
+	for i := 0; i < n; i++ {
+		if pos[i] >= 0 && !keep[i] {
+			out = append(out, i)
+		}
+	}
+
+	return out
+}
+
 // ---------------------------------------------------------------- the oracle
 
 type c07Finding struct{ Sig, What string }
@@ -596,16 +890,8 @@ func c07Check(offerText, answerText string) (fs []c07Finding, outcome []string, 
 			fs = append(fs, c07Finding{"unusable-section-not-rejected", fmt.Sprintf("section %d: unknown media type %s answered with port %s", i, o.Kind, a.Port)})
 		}
 	}
-	if len(off.Media) == len(ans.Media) {
-		for i := range off.Media {
-			pair(i, i)
-		}
-
-		return fs, outcome, nil
-	}
-	ansTo, missing := c07Align(off, ans)
 	head := fmt.Sprintf("offer has %d m-sections, answer has %d: ", len(off.Media), len(ans.Media))
-	for _, i := range missing {
+	drop := func(i int) {
 		o := off.Media[i]
 		om, _ := o.Mid()
 		kind := strings.ToLower(o.Kind)
@@ -625,6 +911,63 @@ func c07Check(offerText, answerText string) (fs []c07Finding, outcome []string, 
 		}
 		fs = append(fs, c07Finding{sig, head + fmt.Sprintf("offer section %d (m=%s, mid %q, direction %s, port %s) has no counterpart in the answer",
 			i, o.Kind, om, dirOf(o), o.Port)})
+	}
+	// When the mids alone tell which answer section belongs to which offer section, the sections without counterpart
+	// and the sections answered out of order are known exactly.
+	if pos, ok := c07ByMid(off, ans); ok {
+		moved := c07Displaced(pos)
+		dropped := 0
+		for i := range pos {
+			if pos[i] < 0 {
+				dropped++
+			}
+		}
+		if dropped > 0 || len(moved) > 0 {
+			order := func(d *kit.SDPDesc) string {
+				var ms []string
+				for _, m := range d.Media {
+					mid, _ := m.Mid()
+					ms = append(ms, fmt.Sprintf("%s(%s)", strings.ToLower(m.Kind), mid))
+				}
+
+				return strings.Join(ms, " ")
+			}
+			isMoved := map[int]bool{}
+			for _, i := range moved {
+				isMoved[i] = true
+			}
+			for i, o := range off.Media {
+				if pos[i] < 0 {
+					drop(i)
+
+					continue
+				}
+				if isMoved[i] {
+					om, _ := o.Mid()
+					label := kindLabel[i]
+					if !c07KnownKind(strings.ToLower(o.Kind)) {
+						label = "unknown-kind"
+					}
+					fs = append(fs, c07Finding{"answer-moves-section:" + label, fmt.Sprintf(
+						"not in the same order: offer section %d (m=%s, mid %q) is answered at position %d; offer order [%s], answer order [%s]",
+						i, o.Kind, om, pos[i], order(off), order(ans))})
+				}
+				pair(i, pos[i]) // media type / rejection clauses, judged against the section with the same mid
+			}
+
+			return fs, outcome, nil
+		}
+	}
+	if len(off.Media) == len(ans.Media) {
+		for i := range off.Media {
+			pair(i, i)
+		}
+
+		return fs, outcome, nil
+	}
+	ansTo, missing := c07Align(off, ans)
+	for _, i := range missing {
+		drop(i)
 	}
 	for j, i := range ansTo {
 		if i < 0 {
@@ -648,9 +991,54 @@ func c07NewAnswerer(c *c07Case) (*PeerConnection, error) {
 	if err != nil {
 		return nil, fmt.Errorf("engine: %w", err)
 	}
-	pc, err := rigNewPC(rigOpts{ME: me, SE: func(se *SettingEngine) { se.DisableMediaEngineMultipleCodecs(c.DisableMulti) }})
+	k := c.Knobs
+	var cfg Configuration
+	switch k.Bundle {
+	case "balanced":
+		cfg.BundlePolicy = BundlePolicyBalanced
+	case "max-compat":
+		cfg.BundlePolicy = BundlePolicyMaxCompat
+	case "max-bundle":
+		cfg.BundlePolicy = BundlePolicyMaxBundle
+	}
+	switch k.RTCPMux {
+	case "negotiate":
+		cfg.RTCPMuxPolicy = RTCPMuxPolicyNegotiate
+	case "require":
+		cfg.RTCPMuxPolicy = RTCPMuxPolicyRequire
+	}
+	cfg.AlwaysNegotiateDataChannels = k.AlwaysDC
+	var seErr error
+	pc, err := rigNewPC(rigOpts{ME: me, Cfg: cfg, SE: func(se *SettingEngine) {
+		se.DisableMediaEngineMultipleCodecs(c.DisableMulti)
+		se.EnableSctpSnap(k.Snap)
+		se.EnableSCTPZeroChecksum(k.ZeroChecksum)
+		if k.RecvBuf != 0 {
+			se.SetSCTPMaxReceiveBufferSize(k.RecvBuf)
+		}
+		if k.SCTPMaxMsg != 0 {
+			se.SetSCTPMaxMessageSize(k.SCTPMaxMsg)
+		}
+		se.SetSDPMediaLevelFingerprints(k.MediaFP)
+		se.SetLite(k.Lite)
+		switch k.AnswerRole {
+		case "client":
+			seErr = se.SetAnsweringDTLSRole(DTLSRoleClient)
+		case "server":
+			seErr = se.SetAnsweringDTLSRole(DTLSRoleServer)
+		}
+		se.SetIgnoreRidPauseForRecv(k.IgnoreRidPause)
+		if k.Renomination && seErr == nil {
+			seErr = se.SetICERenomination()
+		}
+	}})
 	if err != nil {
 		return nil, err
+	}
+	if seErr != nil {
+		rigClose(pc)
+
+		return nil, fmt.Errorf("SettingEngine: %w", seErr)
 	}
 	for _, l := range c.Locals {
 		kind := NewRTPCodecType(l.Kind)
@@ -689,11 +1077,115 @@ func c07NewAnswerer(c *c07Case) (*PeerConnection, error) {
 	return pc, nil
 }
 
+// c07ConfigEvidence records, for one answered offer, which answerer settings were on, which activating attributes the
+// offer carried, which setting met its attribute, and where in the offer the sections carrying such an attribute sat.
+func c07ConfigEvidence(run *kit.Run, c *c07Case, g *genSDP) {
+	on := c.Knobs.on()
+	if len(on) == 0 {
+		run.Count("answers_checked_default_answerer", 1)
+	} else {
+		run.Count("answers_checked_nondefault_answerer", 1)
+	}
+	for _, s := range on {
+		if i := strings.IndexByte(s, '='); i >= 0 && strings.HasPrefix(s, "sctp-") {
+			s = s[:i] // numeric values: one class
+		}
+		run.Seen("answerer_setting", s)
+	}
+	run.Seen("answerer_settings_per_case", fmt.Sprint(len(on)))
+	pos := func(i int) string {
+		switch {
+		case len(g.Media) == 1:
+			return "only"
+		case i == 0:
+			return "first"
+		case i == len(g.Media)-1:
+			return "last"
+		}
+
+		return "middle"
+	}
+	has := func(m *genMedia, prefix string) bool {
+		for _, l := range m.Extra {
+			if strings.HasPrefix(l, prefix) {
+				return true
+			}
+		}
+
+		return false
+	}
+	sessHas := func(prefix string) bool {
+		for _, l := range g.Extra {
+			if strings.HasPrefix(l, prefix) {
+				return true
+			}
+		}
+
+		return false
+	}
+	meet := func(setting bool, name string, attr bool, attrName string) {
+		if attr {
+			run.Seen("offer_activator", attrName)
+		}
+		switch {
+		case setting && attr:
+			run.Count("setting_meets_attribute:"+name+"+"+attrName, 1)
+		case setting:
+			run.Count("setting_without_attribute:"+name, 1)
+		case attr:
+			run.Count("attribute_without_setting:"+attrName, 1)
+		}
+	}
+	anyInit, anyPaused, anyRid, anyApp := false, false, false, false
+	setup := "actpass"
+	for i, m := range g.Media {
+		if m.NoSetup {
+			setup = "absent"
+		} else if m.Setup != "" {
+			setup = m.Setup
+		}
+		if m.Kind == "application" {
+			anyApp = true
+			if has(m, "a=sctp-init:") {
+				anyInit = true
+				run.Seen("sctp_init_section_position", pos(i))
+				if c.Knobs.Snap {
+					run.Seen("sctp_init_section_position_with_snap", pos(i))
+				}
+			}
+
+			continue
+		}
+		if has(m, "a=rid:") {
+			anyRid = true
+			run.Seen("simulcast_section_position", pos(i))
+			for _, l := range m.Extra {
+				if strings.HasPrefix(l, "a=simulcast:") && strings.Contains(l, "~") {
+					anyPaused = true
+				}
+			}
+		}
+	}
+	meet(c.Knobs.Snap, "sctp-snap", anyInit, "sctp-init")
+	meet(c.Knobs.SCTPMaxMsg != 0, "sctp-max-message-size", anyApp, "application-section")
+	meet(c.Knobs.Lite, "ice-lite", g.ICELite, "ice-lite")
+	meet(c.Knobs.AnswerRole != "", "answering-dtls-role", setup != "actpass", "setup="+setup)
+	meet(c.Knobs.IgnoreRidPause, "ignore-rid-pause", anyPaused, "simulcast-paused-rid")
+	meet(false, "", anyRid && !anyPaused, "simulcast-rids")
+	meet(c.Knobs.Renomination, "ice-renomination", sessHas("a=ice-options:") && strings.Contains(strings.Join(g.Extra, " "), "renomination"), "ice-options-renomination")
+	meet(c.Knobs.Trickle, "answer-option-trickle", sessHas("a=ice-options:trickle"), "ice-options-trickle")
+	meet(false, "", sessHas("a=extmap-allow-mixed"), "extmap-allow-mixed")
+}
+
 func TestVerifC07(t *testing.T) {
 	run := kit.Start(t, "C07", "seeded foreign offers (kinds audio/video/application/text/message, direction present or absent, "+
 		"default/remapped/unsupported codecs, offered port-0 sections, 1..8 sections, all mid styles, BUNDLE present/absent; 30% of the offers repeat the application "+
 		"section (2..4 of them, converted in place or inserted at random positions, random proto/sctp-port/max-message-size); the first 14 cases are hand-written minimal offers) applied to answerers with 0..3 pre-added "+
 		"transceivers, with/without a local data channel, and MediaEngines all/audio-only/video-only/random-subset; 1/3 of the cases add a second extended offer. "+
+		"60% of the answerers are non-default in a random subset of the settings read while answering (SCTP SNAP / zero checksum / receive buffer / max message size, "+
+		"media-level fingerprints, ICE lite, answering DTLS role, ignore-rid-pause, ICE renomination, bundle policy, RTCP mux policy, AlwaysNegotiateDataChannels, "+
+		"trickle answer option) and 65% of the random offers carry a random subset of the attributes those settings react to (a=sctp-init on application sections, "+
+		"a=ice-lite, a=setup active/passive/absent, a=extmap-allow-mixed, a=ice-options, a=rid + a=simulcast with paused rids), drawn independently of the settings. "+
 		"A case counts when CreateAnswer succeeded at least once; it is non-trivial when the applied offer has >= 2 sections of which "+
 		">= 1 is not a plain sendrecv audio/video section with a common codec; distinct by offer structure + engine + locals")
 	defer run.Finish()
@@ -727,7 +1219,11 @@ func TestVerifC07(t *testing.T) {
 
 				break
 			}
-			answer, aerr := pc.CreateAnswer(nil)
+			var aopts *AnswerOptions
+			if c.Knobs.Trickle {
+				aopts = &AnswerOptions{OfferAnswerOptions: OfferAnswerOptions{ICETricklingSupported: true}}
+			}
+			answer, aerr := pc.CreateAnswer(aopts)
 			if aerr != nil {
 				run.Seen("vacuous", fmt.Sprintf("round%d CreateAnswer: %s", round, c07ErrClass(aerr)))
 
@@ -764,7 +1260,9 @@ func TestVerifC07(t *testing.T) {
 					run.Seen("repeated_application_how", c.AppClass)
 				}
 			}
-			desc := fmt.Sprintf("r%d|%s|eng=%s%v|multi=%v|loc=%v|dc=%v", round, c07Describe(g), c.EngineClass, len(c.Engine), !c.DisableMulti, c.Locals, c.LocalDC)
+			c07ConfigEvidence(run, c, g)
+			desc := fmt.Sprintf("r%d|%s|eng=%s%v|multi=%v|loc=%v|dc=%v|knobs=%v|act=%v", round, c07Describe(g), c.EngineClass, len(c.Engine), !c.DisableMulti,
+				c.Locals, c.LocalDC, c.Knobs.on(), c.Act)
 			run.Case(desc, len(g.Media) >= 2 && nonPlain >= 1)
 
 			fs, outcome, perr := c07Check(offerText, answer.SDP)
@@ -778,7 +1276,8 @@ func TestVerifC07(t *testing.T) {
 			}
 			if ansParsed, e2 := kit.ParseSDP(answer.SDP); e2 == nil && (i%97 == 0 || len(fs) > 0) {
 				run.Sample(map[string]any{"case": i, "round": round, "offer": c07Describe(g), "answer": c07DescribeParsed(ansParsed),
-					"engine": c.EngineClass, "locals": c.Locals, "local_datachannel": c.LocalDC, "findings": len(fs)})
+					"engine": c.EngineClass, "locals": c.Locals, "local_datachannel": c.LocalDC, "answerer_settings": c.Knobs.on(),
+					"offer_activators": c.Act, "findings": len(fs)})
 			}
 			seen := map[string]bool{}
 			for _, f := range fs {
@@ -789,6 +1288,7 @@ func TestVerifC07(t *testing.T) {
 				run.Violation(f.Sig, f.What, i, map[string]any{
 					"round": round, "offer_sdp": offerText, "answer_sdp": answer.SDP, "engine_class": c.EngineClass, "engine": c.Engine,
 					"locals": c.Locals, "multi_codec_disabled": c.DisableMulti, "local_datachannel": c.LocalDC, "all_findings": fs,
+					"answerer_settings": c.Knobs, "offer_activators": c.Act,
 				})
 			}
 			if len(fs) > 0 || round == c.Rounds {
